@@ -126,7 +126,7 @@ def r2(ctx):
     # unconfirmed requests bypass the transaction lists
     env = {"isinstance:%s" % apdu: "UnconfirmedRequestPDU", "self.dccEnableDisable": "enable", "atype": True}
     for p in ps:
-        if p.term != "raise" and feasible(p, ev, env):
+        if p.term != "raise" and feasible(p, ev, env) and not any(e.kind in ("except", "excin") for e in p.events):
             loops = [e for e in p.events if e.kind in ("loop0", "loop1")]
             ups = [nd for nd in path_nodes(p) if isinstance(nd, ast.Call) and self_call(nd) == "sap_request"]
             ctx.check("SMAP.confirmation:UnconfirmedRequestPDU", not loops and len(ups) == 1, where(c.module, f), "unconfirmed requests go straight up, once")
